@@ -179,7 +179,7 @@ def run_case(item):
     if amb:
         return dict(res, status="skipped", note=f"printed names {amb} are ambiguous for this input")
     try:
-        program = parse_program(code)
+        program = parse_program(code, cpp=(backend == "libtensor"))
     except CodeError as exc:
         return dict(res, status="differ", witness={"malformed code": str(exc)})
     symbols = {s.name for s in e.sympy.atoms(Symbol) if not isinstance(s, Index)
